@@ -376,7 +376,7 @@ structure Reverted (s0 t X' : State) : Prop where
     (X'.objs j).status ≠ .changed ∧
     ((s0.objs j).status ≠ .ghost → (X'.objs j).val = (s0.objs j).val ∧
       (X'.objs j).refs = (s0.objs j).refs ∧
-      ((X'.objs j).status = .ghost → X'.d2 = true ∧ ∃ k, t.cache.get k = some j))
+      (X'.objs j).status ≠ .ghost)
 
 theorem reverted_facts {s0 t X : State} (h0 : Inv11 s0) (hP : Prog s0 [] t)
     (cf : CleanupFacts s0 t X) (hop : X.opened = true) : Reverted s0 t (afterCompletion X) := by
@@ -442,15 +442,17 @@ theorem reverted_facts {s0 t X : State} (h0 : Inv11 s0) (hP : Prog s0 [] t)
         · exact h
         · have := cf.clean.1.cacheS k j hk; rw [hnone] at this; cases this
       rw [hsame] at hg
+      have hgt : (t.objs j).status ≠ .ghost := fun hh => hg0 (hP.noGhost j hh)
       rcases sh.ghostWhy j hg with h | ⟨k, h⟩
-      · exact absurd (hP.noGhost j h) hg0
-      · refine ⟨?_, k, h⟩
-        rw [afterCompletion_d2]
-        apply sh.lost j hnone _ hg
-        rw [hP.str.cacheS k j h]; simp
+      · exact hgt h
+      · -- it was stored (cached under an oid of `_creating`): disowned with its state
+        rcases hP.cachedOrigin h with h1 | h1
+        · exact hj k h1
+        · exact cf.createdKept k j h h1 hgt hg
 
 theorem CleanupFacts.idle {s : State} (h : Inv11 s) (hn : s.needsToJoin = true) : CleanupFacts s s s := by
-  refine ⟨h.prePoll hn, Clean.refl h.str, rfl, fun _ _ h => h, fun k j hc => h.str.cacheS k j hc, ?_⟩
+  refine ⟨h.prePoll hn, Clean.refl h.str, rfl, fun _ _ h => h, fun k j hc => h.str.cacheS k j hc, ?_,
+    fun _ _ _ _ hg => hg⟩
   intro j hch
   have := h.changedReg j hch
   rw [(h.idle hn).1] at this; cases this
@@ -475,9 +477,7 @@ theorem abort_outcome {s : State} (hg : Good s) (hop : s.opened = true) :
   refine ⟨key, ?_⟩
   intro j hj hg0 hg
   obtain ⟨_, _, _, hk⟩ := key.fresh j hj
-  obtain ⟨_, _, hw⟩ := hk hg0
-  obtain ⟨_, k, hc⟩ := hw hg
-  exact hj k hc
+  exact (hk hg0).2.2 hg
 
 /-- a commit that reports a failure: the connection was not joined (then only the transaction
     boundary happens), or `_cleanup` ran in a state reached by `_commit` -/
